@@ -46,9 +46,11 @@ Qed.
 
 (* ---------- the function table after add_funcs ---------- *)
 Section AddFuncs.
-Variables (i t : name).
-Let step := fun (acc : list (string * method)) (m : method) =>
-  aset (iface_key i t (m_name m)) m (aset (method_key t (m_name m)) m acc).
+Variable d : impl_def.
+Let i := i_iface d.
+Let t := i_type d.
+Let step := fun (acc : list (string * fentry)) (m : method) =>
+  aset (iface_key i t (m_name m)) (mk_entry d m) (aset (method_key t (m_name m)) (mk_entry d m) acc).
 
 Lemma add_other : forall ms fs k,
   (forall m, In m ms -> k <> method_key t (m_name m) /\ k <> iface_key i t (m_name m)) ->
@@ -63,7 +65,7 @@ Qed.
 Hypotheses (Hi : no_colon i = true) (Ht : no_colon t = true).
 
 Lemma add_new : forall ms fs m, NoDup (map m_name ms) -> Forall (fun n => no_colon n = true) (map m_name ms) ->
-  In m ms -> alookup (method_key t (m_name m)) (fold_left step ms fs) = Some m.
+  In m ms -> alookup (method_key t (m_name m)) (fold_left step ms fs) = Some (mk_entry d m).
 Proof.
   induction ms as [|m0 ms IH]; simpl; intros fs m ND NC H; [tauto|].
   inversion ND as [|? ? Hn ND']; subst. inversion NC as [|? ? Hc NC']; subst.
@@ -80,16 +82,16 @@ Proof.
   - apply IH; assumption.
 Qed.
 
-Lemma add_inv : forall ms fs k m, alookup k (fold_left step ms fs) = Some m ->
-  alookup k fs = Some m \/ (In m ms /\ (k = method_key t (m_name m) \/ k = iface_key i t (m_name m))).
+Lemma add_inv : forall ms fs k fe, alookup k (fold_left step ms fs) = Some fe ->
+  alookup k fs = Some fe \/ (exists m, In m ms /\ fe = mk_entry d m /\ (k = method_key t (m_name m) \/ k = iface_key i t (m_name m))).
 Proof.
-  induction ms as [|m0 ms IH]; simpl; intros fs k m H; [auto|].
-  apply IH in H as [H|[H1 H2]]; [|right; auto].
+  induction ms as [|m0 ms IH]; simpl; intros fs k fe H; [auto|].
+  apply IH in H as [H|[m [H1 H2]]]; [|right; exists m; auto].
   unfold step in H. rewrite !alookup_aset in H.
   destruct (String.eqb k (iface_key i t (m_name m0))) eqn:E1.
-  - apply String.eqb_eq in E1. inversion H; subst. right; auto.
+  - apply String.eqb_eq in E1. inversion H; subst. right; exists m0; auto.
   - destruct (String.eqb k (method_key t (m_name m0))) eqn:E2.
-    + apply String.eqb_eq in E2. inversion H; subst. right; auto.
+    + apply String.eqb_eq in E2. inversion H; subst. right; exists m0; auto.
     + auto.
 Qed.
 End AddFuncs.
@@ -97,10 +99,10 @@ End AddFuncs.
 (* ---------- invariants of the registry ---------- *)
 Definition funcs_ok (r : registry) : Prop :=
   forall d m, In d (r_impls r) -> In m (i_methods d) ->
-    alookup (method_key (i_type d) (m_name m)) (r_funcs r) = Some m.
+    alookup (method_key (i_type d) (m_name m)) (r_funcs r) = Some (mk_entry d m).
 Definition funcs_sound (r : registry) : Prop :=
-  forall t n m, alookup (method_key t n) (r_funcs r) = Some m ->
-    exists d, In d (r_impls r) /\ i_type d = t /\ In m (i_methods d) /\ m_name m = n.
+  forall t n fe, alookup (method_key t n) (r_funcs r) = Some fe ->
+    exists d m, In d (r_impls r) /\ i_type d = t /\ In m (i_methods d) /\ m_name m = n /\ fe = mk_entry d m.
 
 Lemma register_impl_inv : forall r d r', wf_impl d -> wf_impls (r_impls r) ->
   funcs_ok r -> funcs_sound r -> register_impl r d = inl r' ->
@@ -123,11 +125,11 @@ Proof.
         -- apply method_key_not_iface_key; try assumption.
            rewrite Forall_forall in Wn. apply Wn. apply in_map; assumption.
     + unfold add_funcs. apply add_new; assumption.
-  - intros t n m H. simpl in *. unfold add_funcs in H.
-    apply add_inv in H as [H|[H1 [H2|H2]]].
-    + destruct (SD t n m H) as [d' [A [B [C D]]]]. exists d'. split; [apply in_or_app; auto|auto].
+  - intros t n fe H. simpl in *. unfold add_funcs in H.
+    apply add_inv in H as [H|[m [H1 [-> [H2|H2]]]]].
+    + destruct (SD t n fe H) as [d' [m [A [B [C [D E]]]]]]. exists d', m. split; [apply in_or_app; auto|auto].
     + apply method_key_inj_r in H2 as [-> ->]; try assumption.
-      * exists d. split; [apply in_or_app; right; left; reflexivity|auto].
+      * exists d, m. split; [apply in_or_app; right; left; reflexivity|auto].
       * rewrite Forall_forall in Wn. apply Wn. apply in_map; assumption.
     + exfalso. revert H2. apply method_key_not_iface_key; try assumption.
       rewrite Forall_forall in Wn. apply Wn. apply in_map; assumption.
@@ -152,13 +154,13 @@ Proof.
 Qed.
 
 Lemma empty_ok : funcs_ok empty_registry /\ funcs_sound empty_registry /\ wf_impls (r_impls empty_registry).
-Proof. split; [intros d m []|split; [intros t n m H; discriminate|constructor]]. Qed.
+Proof. split; [intros d m []|split; [intros t n fe H; discriminate|constructor]]. Qed.
 
 (* THE dispatch fact: after a successful registration of ds (any order), looking up T::m yields the
    method m of the impl block d for every block d of ds and every method of d *)
 Theorem dispatch_registered_l : forall ds r d m, wf_impls ds -> register_all empty_registry ds = inl r ->
   In d ds -> In m (i_methods d) ->
-  alookup (method_key (i_type d) (m_name m)) (r_funcs r) = Some m.
+  alookup (method_key (i_type d) (m_name m)) (r_funcs r) = Some (mk_entry d m).
 Proof.
   intros ds r d m W R Hd Hm. destruct empty_ok as [A [B C]].
   destruct (register_all_inv _ _ _ W C A B R) as [OK [_ [I _]]]. simpl in I.
@@ -166,11 +168,11 @@ Proof.
 Qed.
 
 (* and nothing else is found: a hit for T::n is a method named n of some block for T *)
-Theorem dispatch_sound_l : forall ds r t n m, wf_impls ds -> register_all empty_registry ds = inl r ->
-  alookup (method_key t n) (r_funcs r) = Some m ->
-  exists d, In d ds /\ i_type d = t /\ In m (i_methods d) /\ m_name m = n.
+Theorem dispatch_sound_l : forall ds r t n fe, wf_impls ds -> register_all empty_registry ds = inl r ->
+  alookup (method_key t n) (r_funcs r) = Some fe ->
+  exists d m, In d ds /\ i_type d = t /\ In m (i_methods d) /\ m_name m = n /\ fe = mk_entry d m.
 Proof.
-  intros ds r t n m W R H. destruct empty_ok as [A [B C]].
+  intros ds r t n fe W R H. destruct empty_ok as [A [B C]].
   destruct (register_all_inv _ _ _ W C A B R) as [_ [SD [I _]]]. simpl in I. rewrite <- I. eapply SD; eauto.
 Qed.
 
@@ -245,11 +247,11 @@ Theorem dispatch_order_independent_l : forall ds ds' r r', Permutation ds ds' ->
 Proof.
   intros ds ds' r r' P W R R' t n.
   assert (wf_impls ds') as W' by (eapply wf_impls_perm; eauto).
-  destruct (alookup (method_key t n) (r_funcs r)) as [m|] eqn:A.
-  - destruct (dispatch_sound_l _ _ _ _ _ W R A) as [d [Hd [<- [Hm <-]]]].
+  destruct (alookup (method_key t n) (r_funcs r)) as [fe|] eqn:A.
+  - destruct (dispatch_sound_l _ _ _ _ _ W R A) as [d [m [Hd [<- [Hm [<- ->]]]]]].
     apply dispatch_registered_l with (ds := ds'); auto. eapply Permutation_in; eauto.
-  - destruct (alookup (method_key t n) (r_funcs r')) as [m|] eqn:B; [|reflexivity].
-    destruct (dispatch_sound_l _ _ _ _ _ W' R' B) as [d [Hd [<- [Hm <-]]]].
+  - destruct (alookup (method_key t n) (r_funcs r')) as [fe|] eqn:B; [|reflexivity].
+    destruct (dispatch_sound_l _ _ _ _ _ W' R' B) as [d [m [Hd [<- [Hm [<- ->]]]]]].
     assert (In d ds) as Hd' by (eapply Permutation_in; [apply Permutation_sym|]; eauto).
     rewrite (dispatch_registered_l ds r d m W R Hd' Hm) in A. discriminate.
 Qed.
